@@ -644,6 +644,15 @@ def parallel_real_oracle(c, o, s, which):
         if stop is not None and len(wk) >= stop and par_tail == 'STOP' and len(sk) != stop:
             v.failures.append('consumer stopped after %d records but received %d' % (stop, len(sk)))
             return v
+    if 'bounded' in which:
+        m = re.search(r'dc=(\d+) mb=(\d+)', o)
+        if m:
+            dc, mb = int(m.group(1)), int(m.group(2))
+            q = int(t[3])
+            v.nontrivial = dc > 0
+            if dc > (q + 1) * max(mb, 1):
+                v.failures.append('%d per-record outputs were created; %d data sets with at most %d records each exist' % (dc, q + 1, mb))
+                return v
     if 'errors' in which:
         if stop is None and par_tail != seq_tail:
             v.failures.append('parallel reading ended with %s, sequential reading with %s' % (par_tail[:80], seq_tail[:80]))
@@ -1030,4 +1039,55 @@ def views_oracle(case, toks):
                 if n == 1 and raw != joined:
                     v.failures.append('op %d: single line, but seq() differs from it' % idx)
                     return v
+    return v
+
+
+def parallel_init_oracle(c, o, which):
+    """`Z` cases: parallel_fasta_init / parallel_fastq_init with failing initialisation closures"""
+    v = Verdict()
+    t = c.split(' ')
+    q = int(t[3])
+    ri = t[5] == '1'
+    opt = lambda x: None if x == '-' else int(x)
+    rset, rec, stop = opt(t[6]), opt(t[7]), opt(t[8])
+    if 'HANG' in o or ('leak=0' not in o):
+        if 'terminate' in which or 'errors' in which:
+            v.failures.append('call with a failing initialiser hung or left threads behind: %s' % o[-80:])
+        return v
+    if o.startswith('PANIC'):
+        if 'terminate' in which or 'errors' in which:
+            v.failures.append('call with a failing initialiser panicked')
+        return v
+    if 'errors' not in which:
+        return v
+    m = re.search(r'seen=(\d+) bad=(\d+) (\S+) rsetcalls=(\d+) reccalls=(\d+) mb=(\d+)', o)
+    if not m:
+        v.failures.append('unexpected observation ' + o[:80])
+        return v
+    seen, bad, tail, rsetcalls, reccalls, mb = int(m.group(1)), int(m.group(2)), m.group(3), int(m.group(4)), int(m.group(5)), int(m.group(6))
+    if bad:
+        v.failures.append('a record arrived with an output not computed for it')
+        return v
+    rset_failed = rset is not None and rsetcalls > rset
+    rec_failed = rec is not None and reccalls > rec
+    v.nontrivial = ri or rset_failed or rec_failed
+    if tail.startswith('OK'):
+        if rset_failed:
+            v.failures.append('the record-set data initialiser failed (call %d) but the function returned %s' % (rset, tail))
+        elif ri and not rset_failed:
+            v.failures.append('the reader initialiser failed but the function returned %s' % tail)
+        elif rec_failed:
+            # the failing call belongs to the first record set when its index is below that set's size (the output
+            # vectors start empty); that set is the first the consumer sees if there is only one set or one worker
+            nb = int(re.search(r'nb=(\d+)', o).group(1))
+            fb = int(re.search(r'fb=(\d+)', o).group(1))
+            if rec < fb and (nb == 1 or int(t[2]) == 1):
+                v.failures.append('the per-record data initialiser failed at call %d (first record set, %d records) but the function returned %s after %d records' % (rec, fb, tail, seen))
+        return v
+    if tail == 'E:init.reader' and not ri:
+        v.failures.append('reader-initialisation error returned although that closure did not fail')
+    if tail == 'E:init.rset' and not rset_failed:
+        v.failures.append('record-set-data initialisation error returned although that closure did not fail')
+    if tail == 'E:init.rec' and not rec_failed:
+        v.failures.append('record-data initialisation error returned although that closure did not fail')
     return v
